@@ -241,3 +241,94 @@ Fixpoint resolve_tag (r : str) (tags : list (str * nat)) : option nat :=
   | [] => None
   | (k, v) :: t => if str_eqb r k then Some v else resolve_tag r t
   end.
+
+(* ------------------------------------------------------------------ failing source operations
+   Every call into the source made while finding roots is one operation, in program order:
+   src.Predecessors(cur) (or, for the first filter on a ReferrerLister, rf.Referrers(cur)), then
+   -- filter by filter, predecessor by predecessor -- the src.Fetch of fetchArtifactType /
+   fetchAnnotations for a descriptor that lacks the field.  [k] is a countdown: 0 = no fault
+   armed, k > 0 = the k-th operation from now returns an error.  findRoots and the filters
+   return the first error unchanged (newCopyError("FindPredecessors", ...)). *)
+
+Definition tick (k : nat) : option nat :=
+  match k with O => Some O | S O => None | S k' => Some k' end.
+
+Inductive result := ROk (roots : list desc) | RErr | RFuel.
+
+(* the generic loop of a filter: `for _, p := range predecessors { fetch if missing; if keep(p) ... }` *)
+Fixpoint filter_e (need_fetch : desc -> bool) (fill : desc -> desc) (keep : desc -> bool)
+         (ps : list desc) (k : nat) : option (list desc * nat) :=
+  match ps with
+  | [] => Some ([], k)
+  | p :: ps' =>
+    match (if need_fetch p then tick k else Some k) with
+    | None => None
+    | Some k1 =>
+      match filter_e need_fetch fill keep ps' k1 with
+      | None => None
+      | Some (kept, k2) => let p' := fill p in Some (if keep p' then p' :: kept else kept, k2)
+      end
+    end
+  end.
+
+Definition needs_at_fetch (s : source) (p : desc) : bool :=
+  (is_empty (d_at p) && at_fetch_kind (s_kind s (d_id p)))%bool.
+
+Definition needs_ann_fetch (s : source) (p : desc) : bool :=
+  match d_ann p with None => ann_fetch_kind (s_kind s (d_id p)) | Some _ => false end.
+
+Definition apply_filter_e (s : source) (f : filter) (ps : list desc) (k : nat) : option (list desc * nat) :=
+  match f with
+  | FArt None => Some (ps, k)
+  | FArt (Some re) => filter_e (needs_at_fetch s) (fill_at s) (fun p => re (d_at p)) ps k
+  | FAnn key re => filter_e (needs_ann_fetch s) (fill_ann s) (keep_ann key re) ps k
+  end.
+
+(* state: (fp still nil, predecessors so far, countdown) *)
+Definition step_e (s : source) (acc : option (bool * list desc * nat)) (f : filter)
+  : option (bool * list desc * nat) :=
+  match acc with
+  | None => None
+  | Some (first, ps, k) =>
+    if is_noop f then acc
+    else if (first && s_lister s)%bool then Some (false, apply_lister f ps, k)
+    else match apply_filter_e s f ps k with
+         | None => None
+         | Some (ps', k') => Some (false, ps', k')
+         end
+  end.
+
+(* opts.FindPredecessors(cur) with the countdown: the listing itself is the first operation *)
+Definition find_preds_e (s : source) (fs : list filter) (id : nat) (k : nat) : option (list desc * nat) :=
+  match tick k with
+  | None => None
+  | Some k1 =>
+    match fold_left (step_e s) fs (Some (true, s_preds s id, k1)) with
+    | None => None
+    | Some (_, ps, k2) => Some (ps, k2)
+    end
+  end.
+
+Fixpoint dfs_e (fuel : nat) (s : source) (fs : list filter) (limit : Z)
+         (stack : list frame) (visited : list nat) (roots : list desc) (k : nat) : result :=
+  match fuel with
+  | O => RFuel
+  | S fuel' =>
+    match stack with
+    | [] => ROk roots
+    | (cur, d) :: rest =>
+      if mem (d_id cur) visited then dfs_e fuel' s fs limit rest visited roots k
+      else
+        let visited' := d_id cur :: visited in
+        if ((0 <? limit)%Z && (Z.of_nat d =? limit)%Z)%bool
+        then dfs_e fuel' s fs limit rest visited' (add_root cur roots) k
+        else match find_preds_e s fs (d_id cur) k with
+             | None => RErr
+             | Some ([], k') => dfs_e fuel' s fs limit rest visited' (add_root cur roots) k'
+             | Some (ps, k') => dfs_e fuel' s fs limit (push_preds ps (S d) visited' rest) visited' roots k'
+             end
+    end
+  end.
+
+Definition find_roots_e (fuel : nat) (s : source) (fs : list filter) (limit : Z) (node : desc) (k : nat) : result :=
+  dfs_e fuel s fs limit [(node, O)] [] [] k.
